@@ -41,6 +41,9 @@ NON_BRIDGE_SNIPPETS = [
     "#[cxx::bridge]\npub mod dv_cxx_bridge {\n    pub struct DvExtent { pub w: u32, pub h: u32 }\n    pub enum DvMode { A, B }\n}",
     "#[bridge]\npub mod dv_bare_bridge {{\n    pub struct {T} {{ pub other: u64 }}\n}}",
     "#[cfg(feature = \"bridge\")]\npub mod dv_cfg_mod {\n    pub enum DvCfgEnum { P, Q }\n}",
+    # traits inside ordinary modules (primitive-only signatures, and ones mentioning plain Rust types)
+    "pub mod dv_plain_traits {\n    pub trait DvVisitor { fn visit(&self, depth: u32) -> bool; fn leave(&self); }\n}",
+    "pub mod dv_helpers {\n    pub struct DvPrinter(pub String);\n    pub trait DvSink { fn accept(&mut self, p: &DvPrinter, n: usize) -> Option<String>; }\n}",
 ]
 
 
